@@ -1,3 +1,151 @@
 import Driver.Common
--- stub driver (not yet implemented)
-def main : IO Unit := Driver.run () (fun s _ => (s, "bad-op"))
+import SSV.Model.PortSet
+import SSV.Model.DomainSet
+open SSV
+
+/-! Line-protocol driver for C10: engines `portset`, `domainset`, `prefixset` (see harness/cmd/corr_c10). -/
+
+namespace C10Driver
+
+def hexList (xs : List (List UInt8)) : String :=
+  if xs.isEmpty then "." else ",".intercalate (xs.map toHexField)
+
+def parseHexList (s : String) : Option (List (List UInt8)) :=
+  if s == "." then some [] else (s.splitOn ",").mapM ofHex?
+
+def hex16 (w : Nat) : String :=
+  String.ofList ((List.range 16).map (fun i => hexDigit ((w >>> (4 * (15 - i))) % 16)))
+
+def wordsHex (ws : List Nat) : String := String.join (ws.map hex16)
+
+/-- pack `f 0 … f 65535` into 1024 words (bit `p % 64` of word `p / 64`) -/
+def bitmapWords (f : Nat → Bool) : List Nat :=
+  (List.range 1024).map (fun i =>
+    (List.range 64).foldl (fun acc b => if f (i * 64 + b) then acc ||| (1 <<< b) else acc) 0)
+
+def rangesStr (rs : List PortSet.Range) : String :=
+  if rs.isEmpty then "-" else ",".intercalate (rs.map (fun r => s!"{r.lo}-{r.hi}"))
+
+def portsetLine (portsField strField : String) : String :=
+  let ports? : Option (List Nat) :=
+    if portsField == "-" then some [] else (portsField.splitOn ",").mapM (·.toNat?)
+  match ports?, ofHex? strField with
+  | some ports, some str =>
+    let (ws, ok) := PortSet.build ports str
+    let rs := PortSet.rangeSet ws
+    let rc := PortSet.rangeCount ws
+    let rbits := if rs.length ≤ 64 then wordsHex (bitmapWords (PortSet.rangesContain rs)) else "-"
+    let (reprName, mbits) := match PortSet.choose ws with
+      | .unreachable => ("unreachable", "-")
+      | .pointless => ("pointless", "-")
+      | r@(.single q) => (s!"single:{q}", wordsHex (bitmapWords (fun p => p != 0 && (r.meet p).getD false)))
+      | r@(.ranges _) => ("ranges", wordsHex (bitmapWords (fun p => p != 0 && (r.meet p).getD false)))
+      | r@(.bits _) => ("bits", wordsHex (bitmapWords (fun p => p != 0 && (r.meet p).getD false)))
+    let okS := if ok then "ok" else "err"
+    s!"{okS} cnt={PortSet.count ws} first={PortSet.first ws} rc={rc} rs={rangesStr rs} words={wordsHex ws} rbits={rbits} repr={reprName} mbits={mbits} zero={(PortSet.contains ws 0).isNone}"
+  | _, _ => "bad-op"
+
+structure St where
+  b : DomainSet.Builder := DomainSet.Builder.emptyText
+  ms : Option (List DomainSet.Matcher) := none
+  reBad : List (List UInt8) := []
+
+def domainKind : DomainSet.DomainB → String
+  | .linear _ => "linear" | .bsearch _ => "bsearch" | .map _ => "map"
+def suffixKind : DomainSet.SuffixB → String
+  | .linear _ => "linear" | .map _ => "map" | .trie _ => "trie"
+
+def showBuilder (b : DomainSet.Builder) : String :=
+  s!"D={domainKind b.domains}:{hexList b.domains.rules} S={suffixKind b.suffixes}:{hexList b.suffixes.rules} K={hexList b.keywords} R={hexList b.regexps}"
+
+def matcherKind : DomainSet.Matcher → String
+  | .domainLinear _ => "DomainLinearMatcher" | .domainBSearch _ => "DomainBinarySearchMatcher" | .domainMap _ => "DomainMapMatcher"
+  | .suffixLinear _ => "SuffixLinearMatcher" | .suffixMap _ => "SuffixMapMatcher" | .suffixTrie _ => "DomainSuffixTrie"
+  | .keyword _ => "KeywordLinearMatcher" | .regexp _ => "RegexpMatcher"
+
+def errName : DomainSet.TextErr → String
+  | .emptySet => "empty" | .badHint => "badhint" | .invalidLine => "invalid"
+
+/-- regexp table of one probe: `pat:0|1` pairs -/
+def parseReTab (s : String) : Option (List (List UInt8 × Bool)) :=
+  if s == "-" then some [] else
+  (s.splitOn ",").mapM (fun e =>
+    match e.splitOn ":" with
+    | [p, v] => (ofHex? p).map (fun pb => (pb, v == "1"))
+    | _ => none)
+
+def newDomainB : String → Option DomainSet.DomainB
+  | "linear" => some (.linear []) | "bsearch" => some (.bsearch []) | "map" => some (.map []) | _ => none
+def newSuffixB : String → Option DomainSet.SuffixB
+  | "linear" => some (.linear []) | "map" => some (.map []) | "trie" => some (.trie .nil) | _ => none
+
+def step (st : St) (line : String) : St × String :=
+  match fields line with
+  | ["ps", ports, str] => (st, portsetLine ports str)
+  | ["text", h] =>
+    match ofHex? h with
+    | some t =>
+      match DomainSet.builderFromText t with
+      | .ok b => ({ st with b := b, ms := none }, "ok " ++ showBuilder b)
+      | .error e => ({ st with b := DomainSet.Builder.emptyText, ms := none }, "err " ++ errName e)
+    | none => (st, "bad-op")
+  | ["new", dk, sk] =>
+    match newDomainB dk, newSuffixB sk with
+    | some d, some s => ({ st with b := ⟨d, s, [], []⟩, ms := none }, "ok")
+    | _, _ => (st, "bad-op")
+  | ["ins", k, h] =>
+    match ofHex? h with
+    | some r =>
+      let b := st.b
+      match k with
+      | "d" => ({ st with b := { b with domains := b.domains.insert r } }, "ok")
+      | "s" => ({ st with b := { b with suffixes := b.suffixes.insert r } }, "ok")
+      | "k" => ({ st with b := { b with keywords := b.keywords ++ [r] } }, "ok")
+      | "r" => ({ st with b := { b with regexps := b.regexps ++ [r] } }, "ok")
+      | _ => (st, "bad-op")
+    | none => (st, "bad-op")
+  | ["show"] => (st, showBuilder st.b)
+  | ["gobrt"] =>
+    let b := (DomainSet.BuilderGob.ofBuilder st.b).builder
+    ({ st with b := b, ms := none }, showBuilder b)
+  | ["wtext"] => (st, toHexField st.b.writeText)
+  | ["textrt"] =>
+    match DomainSet.builderFromText st.b.writeText with
+    | .ok b => ({ st with b := b, ms := none }, "ok " ++ showBuilder b)
+    | .error e => (st, "err " ++ errName e)
+  | ["rebad", h] =>
+    match parseHexList h with
+    | some l => ({ st with reBad := l }, "ok")
+    | none => (st, "bad-op")
+  | ["build"] =>
+    match st.b.domainSet (fun p => !st.reBad.contains p) with
+    | some ms => ({ st with ms := some ms }, "ok " ++ ",".intercalate (ms.map matcherKind))
+    | none => ({ st with ms := none }, "err")
+  | ["probe", dh, tab] =>
+    match ofHex? dh, parseReTab tab, st.ms with
+    | some d, some t, some ms =>
+      let re := fun (p d' : List UInt8) => d' == d && ((t.lookup p).getD false)
+      (st, if DomainSet.matchSet re ms d then "1" else "0")
+    | _, _, _ => (st, "bad-op")
+  | ["suffix1", dh, sh] =>
+    match ofHex? dh, ofHex? sh with
+    | some d, some s => (st, if DomainSet.matchDomainSuffix d s then "1" else "0")
+    | _, _ => (st, "bad-op")
+  | ["plines", h] =>
+    match ofHex? h with
+    | some t => (st, hexList ((DomainSet.nonEmptyLines t).filter (fun l => l.head? != some DomainSet.hash)))
+    | none => (st, "bad-op")
+  | ["lines", h] =>
+    match ofHex? h with
+    | some t => (st, hexList (DomainSet.nonEmptyLines t))
+    | none => (st, "bad-op")
+  | ["hint", h] =>
+    match ofHex? h with
+    | some l => (st, match DomainSet.parseCapacityHint l with
+        | .absent => "absent" | .bad => "bad" | .found v => s!"found {v}")
+    | none => (st, "bad-op")
+  | _ => (st, "bad-op")
+
+end C10Driver
+
+def main : IO Unit := Driver.run ({} : C10Driver.St) C10Driver.step
